@@ -60,14 +60,16 @@ main() {
             handle_success
         else
             echo Newest changeset failed to compile
-            # Mark data as failed for use in 'newpolicy'.
-            touch $POLICYDB/failed
             [ "$PREV_POLICY" ] &&
                 echo "Left current policy as '$PREV_POLICY'"
             if try_revert; then
                 # Revert was successful, try to compile again.
                 continue
             fi
+            # Mark data as failed for use in 'newpolicy' and in 'uptodate'.
+            # Set mark only after revert was tried, so that an
+            # interrupted run is repeated.
+            touch $POLICYDB/failed
         fi
         break
     done
@@ -80,7 +82,9 @@ main() {
 uptodate () {
     (set -e
      DIR=$CURRENT
-     [ -d $NEXT ] && DIR=$NEXT
+     # Only trust directory 'next' if it is left over from completely
+     # processed but failed build, not from interrupted run.
+     [ -d $NEXT ] && [ -f $POLICYDB/failed ] && DIR=$NEXT
      [ -f "$DIR/src/.git/refs/heads/master" ] || return 1
      cd $DIR/src
      rev1=$(git rev-parse HEAD)
@@ -94,6 +98,8 @@ prepare_next() {
     cd $POLICYDB
 
     # Cleanup leftovers from previous unsuccessful build of this policy.
+    # Remove 'failed' marker first, it belongs to old directory 'next'.
+    rm -f $POLICYDB/failed
     rm -rf $NEXT
 
     # Create temporary directory for new policy.
